@@ -77,12 +77,16 @@ CHECKS = {
         "level": "exploration",
         "rule": CL_RULE + ("oracle: DoMulti / DoMultiCache return exactly one result per command; result i is the reply to command i (replies carry the command's unique id; inside an opened "
                  "MULTI...EXEC block: OK, QUEUED..., and EXEC's array of the block's replies in order); every arrival of a command of a MULTI...EXEC block at any node - first "
-                 "attempt, after MOVED, after ASK - happens inside a complete contiguous copy [ASKING] MULTI c1..cn EXEC of the block on one connection. "
+                 "attempt, after MOVED, after ASK - happens inside a complete contiguous copy [ASKING] MULTI c1..cn EXEC of the block on one connection, and "
+                 "a block is executed at most once per call; an error reply handed to the caller of a cached read is one the cluster gave to that very command "
+                 "(EXECABORT only when the command itself was not refused); variant askpair: batches of cached reads over two slots that migrate to one shard "
+                 "again and again while one of the two migrations is cancelled. "
                  "non-trivial = at least one call judged; distinct = distinct event-log hash"),
         "parts": [
             {"module": "rueidis", "scenario": "cluster", "quick": 1200, "thorough": 150000},
             {"module": "rueidis", "scenario": "cluster", "variant": "change", "quick": 1000, "thorough": 100000},
             {"module": "rueidis", "scenario": "cluster", "variant": "faults", "quick": 600, "thorough": 60000},
+            {"module": "rueidis", "scenario": "cluster", "variant": "askpair", "quick": 700, "thorough": 70000},
         ],
         "expected_probes": ["redirect-replies-sent", "ask-redirect", "changing-topology"],
         "components": {"real": REAL, "stubs": STUBS},
